@@ -196,6 +196,39 @@ AF_PRE = {"none": "", "int": "a = 1\n", "const": "const a = 1\n", "opt": "a: int
           "obj": "class Aq {\n\tv: int\n\tconstructor(self) {\n\t\tself.v = 1\n\t}\n}\na = Aq()\n"}
 
 
+# (h) type x use: a variable of every type constructor - declared directly and through a `type` alias - put to every kind of use, well-typed or not
+TU_TYPES = {"int": ("int", "1"), "float": ("float", "1.5"), "str": ("str", '"s"'), "bool": ("bool", "true"), "byte": ("byte", "0b1"), "bigint": ("bigint", "B1"),
+            "list": ("[int...]", "[1, 2]"), "list-str": ("[str...]", '["a"]'), "nested": ("[[int...]...]", "[[1]]"), "opt": ("int?", "nil"),
+            "map-str": ("map[str,int]", "map[str,int]"), "map-int": ("map[int,int]", "map[int,int]"), "map-float": ("map[float,int]", "map[float,int]"),
+            "map-bool": ("map[bool,str]", "map[bool,str]"), "fn": ("fn(int)->int", "fn(q: int) -> int {\n\treturn q\n}"), "obj": ("Tq", "Tq()")}
+TU_USES = ["v = X[0]", "v = X[1.5]", 'v = X["k"]', "v = X[true]", "v = X[B1]", "v = X[0b1]", "v = X[ix]", "v = X[fx]", "v = X[sx]", "X[0] = 1", "X[1.5] = 1", 'X["k"] = 1', "X[0] += 1",
+           "X[1.5] += 1", "v = X[0][0]", "v = X(1)", "v = X.v", "X.v = 1", "v = X + 1", "v = X + X", "v = -X", "v = !X", "v = (X) or 1", "v = get X", "v = X == nil",
+           "from 0 to X {\n}", "from 0 to 2 step X {\n}", "if X {\n}", "v = [X, X]", "v = map[str, int] {\"k\": X}", "v = X.len()", "v = X is X", "v = typeof X", "print X",
+           "v = X[0 - 1]", "v = X[2147483648]", "v = X[1 + 0.5]", "X = X", "v: int = X", "assert X"]
+TU_HOSTS = {"module": "{S}", "fn": "hf = fn() {{\n\t{S}\n}}"}
+
+
+def tu_cases():
+    for t in TU_TYPES:
+        for alias in (False, True):
+            for u in range(len(TU_USES)):
+                for h in TU_HOSTS:
+                    yield ("u", t, alias, u, h)
+
+
+def tu_source(case):
+    _, t, alias, u, h = case
+    ty, init = TU_TYPES[t]
+    pre = "class Tq {\n\tv: int\n\tconstructor(self) {\n\t\tself.v = 1\n\t}\n}\n" if t == "obj" else ""
+    pre += "ix = 0\nfx = 1.5\nsx = \"k\"\n"
+    if alias:
+        pre += f"type Aq {ty}\nxq: Aq = {init}\n"
+    else:
+        pre += f"xq: {ty} = {init}\n"
+    stmt = TU_USES[u].replace("X", "xq")
+    return pre + TU_HOSTS[h].replace("{{", "{").replace("}}", "}").replace("{S}", stmt.replace("\n", "\n\t") if h == "fn" else stmt) + "\n"
+
+
 def af_cases():
     import itertools
     flags = [""] + AF_FLAGS + [" ".join(p) for p in itertools.product(AF_FLAGS, repeat=2)]
@@ -217,6 +250,7 @@ class C16(Check):
             "(d) lexical boundaries: ~150 spellings at the limits of every literal rule (decimal / hexadecimal / B / binary / float / string / identifier; "
             "widths 8, 32, 64, 128 bits and beyond, malformed separators, escapes, stray characters) x 39 positions that treat a literal specially; "
             "(f) assignment flags: every sequence of <= 2 of {modify, const, export} x 11 assignment forms x 13 hosts (blocks, nested blocks, functions whose local / parameter is the target, nested functions, methods) x 6 declarations of the target; "
+            "(h) type x use: a variable of each of 16 types, declared directly and through a `type` alias, in 40 uses (index with every literal / variable kind, index stores, call, field, operators, or / get, loop bound and step, condition, literals, methods), well-typed or not; "
             "(e) token soup: EVERY sequence of <= n tokens over a 59-token alphabet (each lexical class, bracket, keyword) and of <= n+1 tokens over its 16 structural members, "
             "at module level, inside a function body, inside a class body and inside an unclosed nested block.  "
             "Non-trivial = the input is not accepted as a valid program (diagnostics path) or exercises a host context.")
@@ -269,8 +303,10 @@ class C16(Check):
 
         lits = lexical_literals()
         imps = [("i", pi, fi, h) for pi in range(len(self.IMPORT_PATHS)) for fi in range(len(self.IMPORT_FORMS)) for h in self.IMPORT_HOSTS]
+        tul = list(tu_cases())
         afl = list(af_cases())
-        ls = [("Lf-assignment-flags-x-forms-x-hosts-x-declared-where", afl if tier == "thorough" else [c for c in afl if c[4] in ("none", "int", "opt")]), ("L0-nesting-towers+lexical-boundaries", [[c] for c in towers()] + [("x", c, i) for i in range(len(lits)) for c in range(len(LEX_CTX))]),
+        ls = [("Lu-type-x-use:-16-types-direct-and-through-an-alias-x-40-uses", tul if tier == "thorough" else [c for c in tul if c[4] == "module" or c[2]]),
+              ("Lf-assignment-flags-x-forms-x-hosts-x-declared-where", afl if tier == "thorough" else [c for c in afl if c[4] in ("none", "int", "opt")]), ("L0-nesting-towers+lexical-boundaries", [[c] for c in towers()] + [("x", c, i) for i in range(len(lits)) for c in range(len(LEX_CTX))]),
               ("Li-import-paths-x-forms-x-hosts", imps),
               ("L1-grammar-k<=2-all-hosts", gram(2, HOSTS, pre, list(ROOTS))),
               ]
@@ -310,6 +346,8 @@ class C16(Check):
             return {"tower": case[1], "depth": case[2]}
         if case[0] == "x":
             return {"context": LEX_CTX[case[1]], "literal": lexical_literals()[case[2]][:80]}
+        if case[0] == "u":
+            return {"type": TU_TYPES[case[1]][0], "through alias": case[2], "use": TU_USES[case[3]].replace("\n", " "), "host": case[4]}
         if case[0] == "a":
             return {"assignment": AF_FORMS[case[2]].replace("{F}", case[1]).replace("{{", "{").replace("}}", "}").strip(), "host": case[3], "prelude": case[4]}
         if case[0] == "s":
@@ -326,6 +364,8 @@ class C16(Check):
             return PRELUDES[p] + host_wrap(host, stmt)
         if case[0] == "t":
             return tower(case[1], case[2])
+        if case[0] == "u":
+            return tu_source(case)
         if case[0] == "a":
             stmt = AF_FORMS[case[2]].replace("{F}", case[1]).strip()
             return (AF_PRE[case[4]] + AF_HOSTS[case[3]].replace("{S}", stmt) + "\n").replace("{{", "{").replace("}}", "}")
